@@ -1,7 +1,855 @@
-//! C25 — not implemented yet (see DESIGN.md section 4).
-use kit::Run;
-use serde_json::Value;
+//! C25 — settings updates follow JSON-merge semantics and fail atomically.
+//!
+//! S-seq: breadth-first search over operation sequences on the REAL `c2pa::Settings`.
+//! state   = canonical JSON of the settings object (`serde_json::to_value`, keys sorted)
+//! ops     = for every leaf path harvested at run time from `serde_json::to_value(Settings::default())` and every value of a
+//!           per-type value set (valid alternatives, wrong types, null, unknown nested object): the overlay document
+//!           {path: value} through with_json / with_toml / update_from_str(json) / update_from_str(toml) and the path update
+//!           through with_value / set_value; plus multi-leaf, unknown-key, section-null, signer, non-object, empty and
+//!           syntactically broken documents, unsupported formats and odd paths.
+//! bound   = depth 2 over the full alphabet from the default settings (every op from every state reached by one op),
+//!           thorough: depth 3 over a 20-leaf core alphabet from every depth-2 state.
+//! oracle  = success ⇒ the new state equals the reference (recursive JSON merge / path replacement on the state JSON;
+//!           null ≡ absent, keys named zz_unknown* may be dropped) and every leaf of the document reads back through
+//!           get_value; failure ⇒ the settings object is unchanged; every variant (JSON/TOML/path, functional/in-place) of
+//!           one logical update that succeeds gives the same state, and JSON and TOML renderings agree on success.
+//! stateright runs the same model (same op table, real Settings) and must find the same number of distinct states.
+//!
+//! Mutants caught (tools/mutant_run.sh C <diff> C25 quick):
+//!   /verif/mutants/C25-merge-replaces-depth1.diff (merge_json replaces instead of merging below the top level)
+//!   /verif/mutants/C25-set-value-not-atomic.diff  (set_value stores the unvalidated value before validation)
 
-pub fn run(_run: &Run, _replay: Option<&Value>) {
-    kit::ev::machinery("C25: check not implemented");
+use c2pa::Settings;
+use kit::{ev, par, Run};
+use serde_json::{json, Map, Value};
+use stateright::{Checker, Model, Property};
+use std::{
+    collections::{BTreeMap, HashMap},
+    sync::{
+        atomic::{AtomicU64, Ordering},
+        Arc, Mutex,
+    },
+};
+
+// ---- JSON helpers (the reference side; never calls the SDK) ---------------------------------------------
+
+fn canon(v: &Value) -> Value {
+    match v {
+        Value::Object(m) => {
+            let mut keys: Vec<&String> = m.keys().collect();
+            keys.sort();
+            let mut o = Map::new();
+            for k in keys {
+                o.insert(k.clone(), canon(&m[k]));
+            }
+            Value::Object(o)
+        }
+        Value::Array(a) => Value::Array(a.iter().map(canon).collect()),
+        other => other.clone(),
+    }
+}
+
+/// Recursive merge: objects merge key by key, everything else replaces.
+fn ref_merge(target: &mut Value, overlay: &Value) {
+    match (target, overlay) {
+        (Value::Object(t), Value::Object(o)) => {
+            for (k, ov) in o {
+                match t.get_mut(k) {
+                    Some(tv) => ref_merge(tv, ov),
+                    None => {
+                        t.insert(k.clone(), ov.clone());
+                    }
+                }
+            }
+        }
+        (t, o) => *t = o.clone(),
+    }
+}
+
+/// Path replacement: intermediate non-objects become objects, the last segment is replaced.
+fn ref_set(target: &mut Value, path: &str, value: &Value) {
+    let segs: Vec<&str> = path.split('.').collect();
+    let mut cur = target;
+    for (i, s) in segs.iter().enumerate() {
+        if !cur.is_object() {
+            *cur = Value::Object(Map::new());
+        }
+        let m = cur.as_object_mut().unwrap();
+        if i + 1 == segs.len() {
+            m.insert(s.to_string(), value.clone());
+            return;
+        }
+        cur = m.entry(s.to_string()).or_insert_with(|| Value::Object(Map::new()));
+    }
+}
+
+fn ref_get<'a>(v: &'a Value, path: &str) -> Option<&'a Value> {
+    let mut cur = v;
+    for s in path.split('.') {
+        cur = cur.as_object()?.get(s)?;
+    }
+    Some(cur)
+}
+
+/// Equivalence of an expected document and the state the SDK reports: null ≡ absent, unknown keys may vanish,
+/// numbers compare numerically. Returns the first differing path.
+fn eqv(expected: &Value, actual: &Value, path: &str) -> Result<(), String> {
+    match (expected, actual) {
+        (Value::Object(e), Value::Object(a)) => {
+            let mut keys: Vec<&String> = e.keys().chain(a.keys()).collect();
+            keys.sort();
+            keys.dedup();
+            for k in keys {
+                if unknown_key(k) {
+                    continue;
+                }
+                let ev = e.get(k).unwrap_or(&Value::Null);
+                let av = a.get(k).unwrap_or(&Value::Null);
+                eqv(ev, av, &if path.is_empty() { k.clone() } else { format!("{path}.{k}") })?;
+            }
+            Ok(())
+        }
+        // an object that only holds unknown keys / nulls is equivalent to nothing at all
+        (Value::Object(e), Value::Null) if e.iter().all(|(k, v)| unknown_key(k) || v.is_null()) => Ok(()),
+        // enum spellings are case-normalised by the SDK (documented case-insensitive parsing; SigningAlg reads "es256" and writes "Es256")
+        (Value::String(x), Value::String(y)) if x.eq_ignore_ascii_case(y) => Ok(()),
+        (Value::Number(x), Value::Number(y)) => {
+            if x == y || (x.as_f64() == y.as_f64() && x.as_f64().is_some()) {
+                Ok(())
+            } else {
+                Err(format!("{path}: expected {x}, found {y}"))
+            }
+        }
+        (Value::Array(x), Value::Array(y)) => {
+            if x.len() != y.len() {
+                return Err(format!("{path}: expected {} elements, found {}", x.len(), y.len()));
+            }
+            for (i, (a, b)) in x.iter().zip(y.iter()).enumerate() {
+                eqv(a, b, &format!("{path}[{i}]"))?;
+            }
+            Ok(())
+        }
+        (e, a) if e == a => Ok(()),
+        (e, a) => Err(format!("{path}: expected {}, found {}", short(e), short(a))),
+    }
+}
+
+/// Keys that are not part of the settings schema: the harness' own zz_unknown* names and the empty key odd paths produce.
+fn unknown_key(k: &str) -> bool {
+    k.is_empty() || k.starts_with("zz_unknown")
+}
+
+fn short(v: &Value) -> String {
+    let s = v.to_string();
+    if s.len() > 60 {
+        format!("{}…", &s[..57])
+    } else {
+        s
+    }
+}
+
+fn nest(path: &str, v: Value) -> Value {
+    let mut out = v;
+    for s in path.rsplit('.') {
+        let mut m = Map::new();
+        m.insert(s.to_string(), out);
+        out = Value::Object(m);
+    }
+    out
+}
+
+fn leaves(v: &Value, path: &str, out: &mut Vec<(String, Value)>) {
+    match v {
+        Value::Object(m) if !m.is_empty() => {
+            for (k, c) in m {
+                leaves(c, &if path.is_empty() { k.clone() } else { format!("{path}.{k}") }, out);
+            }
+        }
+        other => out.push((path.to_string(), other.clone())),
+    }
+}
+
+// ---- TOML rendering of a JSON document (independent of the `toml` crate) --------------------------------
+
+fn toml_key(k: &str) -> String {
+    if !k.is_empty() && k.chars().all(|c| c.is_ascii_alphanumeric() || c == '_' || c == '-') {
+        k.to_string()
+    } else {
+        toml_str(k)
+    }
+}
+
+fn toml_str(s: &str) -> String {
+    let mut o = String::from("\"");
+    for c in s.chars() {
+        match c {
+            '"' => o.push_str("\\\""),
+            '\\' => o.push_str("\\\\"),
+            '\n' => o.push_str("\\n"),
+            '\r' => o.push_str("\\r"),
+            '\t' => o.push_str("\\t"),
+            c if (c as u32) < 0x20 || c as u32 == 0x7f => o.push_str(&format!("\\u{:04X}", c as u32)),
+            c => o.push(c),
+        }
+    }
+    o.push('"');
+    o
+}
+
+fn toml_inline(v: &Value) -> Option<String> {
+    Some(match v {
+        Value::Null => return None,
+        Value::Bool(b) => b.to_string(),
+        Value::Number(n) => {
+            if let Some(i) = n.as_i64() {
+                i.to_string()
+            } else if n.is_u64() {
+                return None; // beyond i64: no TOML integer
+            } else {
+                let f = n.as_f64()?;
+                let s = format!("{f:?}");
+                if s.contains('.') || s.contains('e') { s } else { format!("{s}.0") }
+            }
+        }
+        Value::String(s) => toml_str(s),
+        Value::Array(a) => format!("[{}]", a.iter().map(toml_inline).collect::<Option<Vec<_>>>()?.join(", ")),
+        Value::Object(m) => format!("{{ {} }}", m.iter().map(|(k, v)| toml_inline(v).map(|s| format!("{} = {s}", toml_key(k)))).collect::<Option<Vec<_>>>()?.join(", ")),
+    })
+}
+
+/// None when the document has no TOML rendering (null somewhere, non-table root, integer beyond i64).
+fn to_toml(doc: &Value) -> Option<String> {
+    fn table(m: &Map<String, Value>, path: &[String], out: &mut String) -> Option<()> {
+        for (k, v) in m {
+            if !v.is_object() {
+                out.push_str(&format!("{} = {}\n", toml_key(k), toml_inline(v)?));
+            }
+        }
+        for (k, v) in m {
+            if let Value::Object(sub) = v {
+                let mut p = path.to_vec();
+                p.push(toml_key(k));
+                out.push_str(&format!("[{}]\n", p.join(".")));
+                table(sub, &p, out)?;
+            }
+        }
+        Some(())
+    }
+    let m = doc.as_object()?;
+    let mut out = String::new();
+    table(m, &[], &mut out)?;
+    Some(out)
+}
+
+// ---- operations ------------------------------------------------------------------------------------------
+
+#[derive(Clone, Copy, PartialEq, Eq, Debug, Hash)]
+enum Variant {
+    WithJson,
+    WithToml,
+    UpdateJson,
+    UpdateToml,
+    WithValue,
+    SetValue,
+}
+const VARIANTS: [Variant; 6] = [Variant::WithJson, Variant::WithToml, Variant::UpdateJson, Variant::UpdateToml, Variant::WithValue, Variant::SetValue];
+
+impl Variant {
+    fn name(self) -> &'static str {
+        match self {
+            Variant::WithJson => "with_json",
+            Variant::WithToml => "with_toml",
+            Variant::UpdateJson => "update_from_str(json)",
+            Variant::UpdateToml => "update_from_str(toml)",
+            Variant::WithValue => "with_value",
+            Variant::SetValue => "set_value",
+        }
+    }
+    fn in_place(self) -> bool {
+        matches!(self, Variant::UpdateJson | Variant::UpdateToml | Variant::SetValue)
+    }
+}
+
+#[derive(Clone, Debug)]
+struct Op {
+    id: String,
+    /// overlay document (JSON text is `doc.to_string()`, TOML text is `toml`)
+    doc: Option<Value>,
+    toml: Option<String>,
+    /// path update
+    path: Option<(String, Value)>,
+    /// raw text for documents that are not JSON values: (text, format)
+    raw: Option<(String, String)>,
+    core: bool,
+}
+
+impl Op {
+    fn variants(&self) -> Vec<Variant> {
+        let mut v = vec![];
+        if self.raw.is_some() {
+            return vec![Variant::WithJson, Variant::UpdateJson]; // the raw text carries its own format
+        }
+        if self.doc.is_some() {
+            v.push(Variant::WithJson);
+            v.push(Variant::UpdateJson);
+            if self.toml.is_some() {
+                v.push(Variant::WithToml);
+                v.push(Variant::UpdateToml);
+            }
+        }
+        if self.path.is_some() {
+            v.push(Variant::WithValue);
+            v.push(Variant::SetValue);
+        }
+        v
+    }
+}
+
+/// Execute one variant on a clone of `s`. Returns (result state or error text, the receiver after the call).
+fn exec(s: &Settings, op: &Op, var: Variant) -> Result<(Result<Settings, String>, Settings), String> {
+    par::guard(|| {
+        let mut recv = s.clone();
+        let e = |e: c2pa::Error| format!("{e:?}").chars().take(160).collect::<String>();
+        let r: Result<Settings, String> = if let Some((text, fmt)) = &op.raw {
+            match var {
+                Variant::WithJson => match fmt.as_str() {
+                    "json" => recv.with_json(text).map_err(e),
+                    "toml" => recv.with_toml(text).map_err(e),
+                    _ => {
+                        let mut c = recv.clone();
+                        c.update_from_str(text, fmt).map(|_| c).map_err(e)
+                    }
+                },
+                _ => recv.update_from_str(text, fmt).map(|_| recv.clone()).map_err(e),
+            }
+        } else {
+            match var {
+                Variant::WithJson => recv.with_json(&op.doc.as_ref().unwrap().to_string()).map_err(e),
+                Variant::WithToml => recv.with_toml(op.toml.as_ref().unwrap()).map_err(e),
+                Variant::UpdateJson => recv.update_from_str(&op.doc.as_ref().unwrap().to_string(), "json").map(|_| recv.clone()).map_err(e),
+                Variant::UpdateToml => recv.update_from_str(op.toml.as_ref().unwrap(), "toml").map(|_| recv.clone()).map_err(e),
+                Variant::WithValue => {
+                    let (p, v) = op.path.as_ref().unwrap();
+                    recv.with_value(p, v.clone()).map_err(e)
+                }
+                Variant::SetValue => {
+                    let (p, v) = op.path.as_ref().unwrap();
+                    recv.set_value(p, v.clone()).map(|_| recv.clone()).map_err(e)
+                }
+            }
+        };
+        (r, recv)
+    })
+}
+
+fn state_json(s: &Settings) -> Value {
+    canon(&serde_json::to_value(s).unwrap_or_else(|e| ev::machinery(format!("C25: settings do not serialise: {e}"))))
+}
+
+fn pem() -> String {
+    String::from_utf8_lossy(&kit::sdk::fixture("certs/es256.pub")).to_string()
+}
+
+const CORE_LEAVES: [&str; 20] = [
+    "version", "verify.verify_trust", "verify.verify_after_sign", "verify.ocsp_fetch", "verify.remote_manifest_fetch", "core.merkle_tree_max_proofs",
+    "core.merkle_tree_chunk_size_in_kb", "core.prefer_compress_manifests", "core.max_decompressed_manifest_size_in_mb", "core.allowed_network_hosts",
+    "trust.trust_anchors", "trust.user_anchors", "cawg_trust.verify_trust_list", "cawg_trust.trusted_ica_issuers", "builder.vendor", "builder.thumbnail.enabled",
+    "builder.thumbnail.quality", "builder.thumbnail.long_edge", "builder.intent", "builder.actions.auto_created_action.enabled",
+];
+
+fn build_ops(default_json: &Value) -> Vec<Op> {
+    let mut lv = vec![];
+    leaves(default_json, "", &mut lv);
+    lv.sort_by(|a, b| a.0.cmp(&b.0));
+    // string dictionary: every string in the default document + a few lower-case words enums are likely to know
+    let mut words: Vec<String> = lv.iter().filter_map(|(_, v)| v.as_str().map(|s| s.to_string())).collect();
+    for w in ["low", "high", "active", "parent", "png", "jpeg", "edit", "sha384", "zz-other"] {
+        words.push(w.to_string());
+    }
+    words.sort();
+    words.dedup();
+    let pem = pem();
+    let mut ops: Vec<Op> = vec![];
+    let mut push_leaf = |path: &str, v: Value, tag: &str| {
+        let doc = nest(path, v.clone());
+        ops.push(Op {
+            id: format!("leaf {path} := {tag}"),
+            toml: to_toml(&doc),
+            doc: Some(doc),
+            path: Some((path.to_string(), v)),
+            raw: None,
+            core: CORE_LEAVES.contains(&path),
+        });
+    };
+    for (path, cur) in &lv {
+        let mut vals: Vec<(Value, String)> = vec![];
+        match cur {
+            Value::Bool(b) => {
+                vals.push((json!(!b), format!("{}", !b)));
+                vals.push((json!(*b), format!("{b}")));
+                vals.push((json!("zz-notabool"), "wrong-type-string".into()));
+                vals.push((json!(1), "wrong-type-number".into()));
+            }
+            Value::Number(n) => {
+                let x = n.as_u64().unwrap_or(0);
+                vals.push((json!(x + 1), "n+1".into()));
+                vals.push((json!(0), "0".into()));
+                vals.push((json!(5000), "5000".into()));
+                vals.push((json!(-1), "-1".into()));
+                vals.push((json!("zz-nan"), "wrong-type-string".into()));
+                vals.push((json!(1.5), "1.5".into()));
+            }
+            Value::String(_) => {
+                for w in &words {
+                    vals.push((json!(w), format!("\"{w}\"")));
+                }
+                vals.push((json!(17), "wrong-type-number".into()));
+            }
+            Value::Null => {
+                vals.push((json!(true), "true".into()));
+                vals.push((json!(7), "7".into()));
+                vals.push((json!("zz-other"), "\"zz-other\"".into()));
+                vals.push((json!(pem), "PEM".into()));
+                vals.push((json!(["zz-other"]), "[\"zz-other\"]".into()));
+                vals.push((json!(["*.example.com", "https://example.org:443"]), "[host patterns]".into()));
+                vals.push((json!("edit"), "\"edit\"".into()));
+                vals.push((json!("all"), "\"all\"".into()));
+                vals.push((json!({"create": "http://cv.iptc.org/newscodes/digitalsourcetype/digitalCapture"}), "{create}".into()));
+                vals.push((json!({"name": "zz-gen", "version": "1.2"}), "{name,version}".into()));
+            }
+            Value::Array(_) => {
+                vals.push((json!([]), "[]".into()));
+                vals.push((json!(["zz-other"]), "[\"zz-other\"]".into()));
+                vals.push((json!("zz-notalist"), "wrong-type-string".into()));
+            }
+            Value::Object(_) => {
+                vals.push((json!({}), "{}".into()));
+            }
+        }
+        vals.push((Value::Null, "null".into()));
+        vals.push((json!({"zz_unknown_nested": 1}), "{zz_unknown_nested}".into()));
+        for (v, tag) in vals {
+            push_leaf(path, v, &tag);
+        }
+    }
+    // documents that are not single leaves
+    let mut push_doc = |id: &str, doc: Value, core: bool| {
+        ops.push(Op { id: format!("doc {id}"), toml: to_toml(&doc), doc: Some(doc), path: None, raw: None, core });
+    };
+    push_doc("{}", json!({}), true);
+    push_doc("two sections", json!({"verify": {"verify_trust": false, "ocsp_fetch": true}, "core": {"merkle_tree_max_proofs": 9}}), true);
+    push_doc("nested three levels", json!({"builder": {"thumbnail": {"enabled": false, "long_edge": 64}, "actions": {"auto_created_action": {"enabled": false}}}}), true);
+    push_doc("unknown top-level key", json!({"zz_unknown_top": {"a": 1}}), true);
+    push_doc("unknown key beside a known one", json!({"verify": {"zz_unknown_k": true, "strict_v1_validation": true}}), true);
+    push_doc("valid + invalid leaf", json!({"verify": {"verify_trust": false}, "core": {"merkle_tree_max_proofs": "zz-bad"}}), true);
+    push_doc("valid + failing validation", json!({"verify": {"verify_trust": false}, "version": 99}), true);
+    push_doc("section := null", json!({"verify": null}), false);
+    push_doc("section := scalar", json!({"core": 5}), false);
+    push_doc("section := array", json!({"builder": []}), false);
+    push_doc("signer := null", json!({"signer": null}), false);
+    push_doc("signer local", json!({"signer": {"local": {"alg": "es256", "sign_cert": pem, "private_key": "zz-not-a-key", "tsa_url": null}}}), false);
+    push_doc("signer remote", json!({"signer": {"remote": {"url": "http://localhost:1/sign", "alg": "ps256", "sign_cert": pem}}}), false);
+    push_doc("claim_generator_info with extra field", json!({"builder": {"claim_generator_info": {"name": "zz-gen", "zz_unknown_extra": [1, 2]}}}), false);
+    push_doc("root := number", json!(5), false);
+    push_doc("root := array", json!([1]), false);
+    push_doc("root := null", Value::Null, false);
+    push_doc("root := string", json!("verify"), false);
+    for (id, text, fmt) in [
+        ("broken json", "{\"verify\": ", "json"),
+        ("empty json", "", "json"),
+        ("broken toml", "verify = = 1", "toml"),
+        ("empty toml", "", "toml"),
+        ("toml duplicate key", "[verify]\nocsp_fetch = true\nocsp_fetch = false\n", "toml"),
+        ("unsupported format", "{}", "yaml"),
+        ("format name in capitals", "{\"verify\":{\"ocsp_fetch\":true}}", "JSON"),
+    ] {
+        ops.push(Op { id: format!("raw {id}"), doc: None, toml: None, path: None, raw: Some((text.to_string(), fmt.to_string())), core: id == "broken json" });
+    }
+    for (p, v) in [
+        ("", json!(1)),
+        ("zz_unknown_top.k", json!(1)),
+        ("verify.", json!(true)),
+        (".verify", json!(true)),
+        ("verify.verify_trust.zz_unknown_below_leaf", json!(true)),
+        ("builder.thumbnail", json!({"enabled": false, "ignore_errors": true, "long_edge": 8, "prefer_smallest_format": true, "quality": "low"})),
+        ("verify", json!({"verify_trust": false})),
+    ] {
+        ops.push(Op { id: format!("path {p:?} := {}", short(&v)), doc: None, toml: None, path: Some((p.to_string(), v)), raw: None, core: false });
+    }
+    ops
+}
+
+// ---- judging one (state, op): every variant ---------------------------------------------------------------
+
+struct Judged {
+    /// successor (canonical json text, object) if the logical op succeeded in at least one variant
+    next: Vec<(String, Settings)>,
+    outcomes: Vec<&'static str>,
+    execs: u64,
+}
+
+fn judge(run: &Run, trace: &[String], s: &Settings, sj: &Value, op: &Op, verbose: bool) -> Judged {
+    let mut out = Judged { next: vec![], outcomes: vec![], execs: 0 };
+    let pre_text = sj.to_string();
+    let mut results: Vec<(Variant, Result<String, String>)> = vec![];
+    let case = |var: Variant| {
+        let mut t: Vec<Value> = trace.iter().map(|x| json!(x)).collect();
+        t.push(json!(format!("{} :: {}", var.name(), op.id)));
+        json!({"trace": t})
+    };
+    let kind = op.id.split(" := ").next().unwrap_or(&op.id).to_string();
+    for var in op.variants() {
+        out.execs += 1;
+        let (res, recv) = match exec(s, op, var) {
+            Ok(x) => x,
+            Err(p) => {
+                run.violation(format!("panic {} :: {}", var.name(), op.id), p, case(var));
+                continue;
+            }
+        };
+        let recv_json = state_json(&recv);
+        if verbose {
+            println!("  {} -> {}", var.name(), match &res { Ok(_) => "Ok".to_string(), Err(e) => format!("Err({e})") });
+        }
+        match res {
+            Err(e) => {
+                out.outcomes.push("failure");
+                // failure ⇒ unchanged
+                if recv_json != *sj {
+                    let d = eqv(sj, &recv_json, "").err().unwrap_or_else(|| "differs only in null/unknown keys".into());
+                    run.violation(format!("not-atomic {} :: {kind}", var.name()), format!("{} failed ({e}) but the settings changed: {d}", op.id), case(var));
+                }
+                results.push((var, Err(e)));
+            }
+            Ok(t) => {
+                out.outcomes.push("success");
+                let tj = state_json(&t);
+                // functional variants must not touch the receiver; in-place variants must hold the result
+                if var.in_place() {
+                    if recv_json != tj {
+                        run.violation(format!("in-place-result-differs {} :: {kind}", var.name()), format!("{}: receiver and returned state differ", op.id), case(var));
+                    }
+                } else if recv_json != *sj {
+                    run.violation(format!("functional-op-mutated-receiver {} :: {kind}", var.name()), format!("{}: the receiver of a with_* call changed", op.id), case(var));
+                }
+                // reference
+                let mut expected = sj.clone();
+                let is_path = matches!(var, Variant::WithValue | Variant::SetValue);
+                if is_path {
+                    let (p, v) = op.path.as_ref().unwrap();
+                    ref_set(&mut expected, p, v);
+                } else if let Some(doc) = &op.doc {
+                    ref_merge(&mut expected, doc);
+                } else if let Some((text, _)) = &op.raw {
+                    // raw texts that parse are either empty TOML or the JSON given verbatim
+                    if let Ok(doc) = serde_json::from_str::<Value>(text) {
+                        ref_merge(&mut expected, &doc);
+                    }
+                }
+                if let Err(d) = eqv(&expected, &tj, "") {
+                    let what = if is_path { "path-set" } else { "merge" };
+                    run.violation(
+                        format!("{what}-semantics {} :: {kind} at={}", var.name(), d.split(':').next().unwrap_or("")),
+                        format!("{} succeeded but the state is not the reference {what}: {d}", op.id),
+                        case(var),
+                    );
+                }
+                // every leaf of the document reads back
+                let mut doc_leaves = vec![];
+                if is_path {
+                    let (p, v) = op.path.as_ref().unwrap();
+                    leaves(v, p, &mut doc_leaves);
+                } else if let Some(doc) = &op.doc {
+                    if doc.is_object() {
+                        leaves(doc, "", &mut doc_leaves);
+                    }
+                }
+                for (p, v) in doc_leaves {
+                    if p.is_empty() || p.split('.').any(|seg| seg.starts_with("zz_unknown") || seg.is_empty()) {
+                        continue;
+                    }
+                    let got: Value = match par::guard(|| t.get_value::<Value>(&p)) {
+                        Ok(Ok(g)) => g,
+                        Ok(Err(_)) => Value::Null, // "not found" ≡ null
+                        Err(pn) => {
+                            run.violation(format!("panic get_value :: {kind}"), pn, case(var));
+                            continue;
+                        }
+                    };
+                    if let Err(d) = eqv(&v, &got, &p) {
+                        run.violation(format!("read-back {} :: {kind} at={p}", var.name()), format!("{} succeeded but get_value({p:?}) differs: {d}", op.id), case(var));
+                    }
+                }
+                let key = tj.to_string();
+                if key != pre_text || true {
+                    out.next.push((key.clone(), t));
+                }
+                results.push((var, Ok(key)));
+            }
+        }
+    }
+    // variants agree
+    let oks: Vec<&(Variant, Result<String, String>)> = results.iter().filter(|r| r.1.is_ok()).collect();
+    for w in oks.windows(2) {
+        if w[0].1 != w[1].1 {
+            let a: Value = serde_json::from_str(w[0].1.as_ref().unwrap()).unwrap_or(Value::Null);
+            let b: Value = serde_json::from_str(w[1].1.as_ref().unwrap()).unwrap_or(Value::Null);
+            let d = eqv(&a, &b, "").err().unwrap_or_else(|| "null/absent only".into());
+            run.violation(format!("variants-disagree {} vs {} :: {kind}", w[0].0.name(), w[1].0.name()), format!("{}: {d}", op.id), case(w[1].0));
+        }
+    }
+    // For a single leaf with a non-object value the overlay document {path: v} and the path update path := v describe the SAME
+    // target document (merge and replacement coincide when every intermediate node of the path is an object in the state,
+    // which holds for harvested leaf paths). If one of them succeeds, that document is valid, so the other must yield it too.
+    if let (Some(doc), Some((p, v))) = (&op.doc, &op.path) {
+        let mut by_merge = sj.clone();
+        ref_merge(&mut by_merge, doc);
+        let mut by_set = sj.clone();
+        ref_set(&mut by_set, p, v);
+        if !v.is_object() && by_merge == by_set && oks.len() != results.len() && !oks.is_empty() {
+            let ok_names: Vec<&str> = oks.iter().map(|r| r.0.name()).collect();
+            let failed: Vec<String> = results.iter().filter(|r| r.1.is_err()).map(|r| format!("{} ({})", r.0.name(), r.1.as_ref().err().unwrap())).collect();
+            run.violation(
+                format!("merge-not-yielded :: {kind} ok=[{}] failed=[{}]", ok_names.join(","), results.iter().filter(|r| r.1.is_err()).map(|r| r.0.name()).collect::<Vec<_>>().join(",")),
+                format!("{}: the same target document is accepted through {:?} but refused through {:?}", op.id, ok_names, failed),
+                case(results.iter().find(|r| r.1.is_err()).map(|r| r.0).unwrap_or(Variant::WithJson)),
+            );
+        }
+    }
+    // JSON and TOML renderings of the same document agree on success/failure
+    for (j, t) in [(Variant::WithJson, Variant::WithToml), (Variant::UpdateJson, Variant::UpdateToml)] {
+        let rj = results.iter().find(|r| r.0 == j);
+        let rt = results.iter().find(|r| r.0 == t);
+        if let (Some(rj), Some(rt)) = (rj, rt) {
+            if rj.1.is_ok() != rt.1.is_ok() && op.raw.is_none() {
+                run.violation(
+                    format!("json-toml-disagree {} :: {kind}", j.name()),
+                    format!("{}: JSON rendering {} but TOML rendering {}", op.id, if rj.1.is_ok() { "succeeds".to_string() } else { format!("fails ({})", rj.1.as_ref().err().unwrap()) },
+                        if rt.1.is_ok() { "succeeds".to_string() } else { format!("fails ({})", rt.1.as_ref().err().unwrap()) }),
+                    case(t),
+                );
+            }
+        }
+    }
+    out
+}
+
+// ---- stateright model -----------------------------------------------------------------------------------
+
+#[derive(Clone)]
+struct SrModel {
+    ops: Arc<Vec<Op>>,
+    /// op indices usable at each depth (depth 0 = from the initial state)
+    alpha: Arc<Vec<Vec<usize>>>,
+    init: String,
+    execs: Arc<AtomicU64>,
+}
+
+impl Model for SrModel {
+    /// (depth, canonical settings JSON)
+    type State = (u8, String);
+    type Action = usize;
+
+    fn init_states(&self) -> Vec<Self::State> {
+        vec![(0, self.init.clone())]
+    }
+    fn actions(&self, st: &Self::State, actions: &mut Vec<Self::Action>) {
+        if let Some(a) = self.alpha.get(st.0 as usize) {
+            actions.extend(a.iter().cloned());
+        }
+    }
+    fn next_state(&self, st: &Self::State, a: Self::Action) -> Option<Self::State> {
+        let s: Settings = serde_json::from_str(&st.1).ok()?;
+        let op = &self.ops[a];
+        // the logical op succeeds if its first variant does (variant agreement is the engine's business)
+        let var = op.variants()[0];
+        self.execs.fetch_add(1, Ordering::Relaxed);
+        match exec(&s, op, var) {
+            Ok((Ok(t), _)) => Some((st.0 + 1, state_json(&t).to_string())),
+            _ => None,
+        }
+    }
+    fn properties(&self) -> Vec<Property<Self>> {
+        vec![Property::always("true", |_, _| true)]
+    }
+}
+
+// ---- driver ---------------------------------------------------------------------------------------------
+
+pub fn run(run: &Run, replay: Option<&Value>) {
+    run.rule(
+        "BFS from Settings::default(): every operation of the alphabet (leaf x value x {with_json, with_toml, update_from_str json/toml, with_value, set_value} + document/raw/path extras) from every \
+         state reached within depth-1 operations; in every transition: reference merge/path-set equality on success, unchanged state on failure, variant agreement. \
+         non-trivial = (state, logical op) pairs whose op succeeds in at least one variant AND changes the state; distinct by construction.",
+    );
+    run.assume("null ≡ absent in the state JSON (Option fields are skipped when None); keys named zz_unknown* are not part of the schema and may be dropped; numbers are compared numerically");
+    run.assume("strings are compared ASCII-case-insensitively: the SDK parses enum spellings case-insensitively and writes its own spelling (e.g. alg \"es256\" reads back \"Es256\"); all candidate strings are lower-case");
+    run.assume("the empty key (paths \"\", \".x\", \"x.\") is treated like any other key outside the schema: it may be dropped");
+    run.assume("the TOML rendering of a document is produced by a 40-line renderer in the harness (tables for objects, inline values otherwise); documents containing null or integers beyond i64 have no TOML rendering");
+    let default = Settings::default();
+    let dj = state_json(&default);
+    if state_json(&Settings::new()) != dj {
+        ev::machinery("C25: Settings::new() differs from Settings::default()");
+    }
+    let ops = build_ops(&dj);
+
+    if let Some(c) = replay {
+        let mut s = default.clone();
+        let steps: Vec<String> = c["trace"].as_array().map(|a| a.iter().filter_map(|x| x.as_str().map(|s| s.to_string())).collect()).unwrap_or_default();
+        let mut trace: Vec<String> = vec![];
+        for (i, st) in steps.iter().enumerate() {
+            let (vname, id) = st.split_once(" :: ").unwrap_or(("", st));
+            let op = ops.iter().find(|o| o.id == id).unwrap_or_else(|| ev::machinery(format!("C25 replay: unknown op {id}")));
+            println!("step {i}: {id}  (document {}; toml {:?}; path {:?})", op.doc.as_ref().map(short).unwrap_or_default(), op.toml, op.path);
+            let sj = state_json(&s);
+            if i + 1 == steps.len() {
+                run.eval();
+                judge(run, &trace, &s, &sj, op, true);
+            } else {
+                let var = VARIANTS.iter().find(|v| v.name() == vname).cloned().unwrap_or(op.variants()[0]);
+                match exec(&s, op, var) {
+                    Ok((Ok(t), _)) => s = t,
+                    other => ev::machinery(format!("C25 replay: prefix step {i} does not succeed: {:?}", other.map(|x| x.0.map(|_| ())))),
+                }
+                trace.push(st.clone());
+            }
+        }
+        return;
+    }
+
+    let harvested = {
+        let mut l = vec![];
+        leaves(&dj, "", &mut l);
+        l
+    };
+    run.extra("leaves_harvested", json!(harvested.len()));
+    run.extra("logical_ops", json!(ops.len()));
+    run.extra("ops_with_toml_rendering", json!(ops.iter().filter(|o| o.toml.is_some()).count()));
+    run.sample(json!({"default_settings_leaves": harvested.iter().take(8).map(|(p, v)| json!([p, v])).collect::<Vec<_>>()}));
+    if let Some(o) = ops.iter().find(|o| o.id.starts_with("doc nested three levels")) {
+        run.sample(json!({"op": o.id, "json": o.doc, "toml": o.toml}));
+    }
+
+    // determinism: the same op twice
+    {
+        let o = &ops[0];
+        let a = exec(&default, o, o.variants()[0]).map(|x| x.0.map(|t| state_json(&t).to_string()));
+        let b = exec(&default, o, o.variants()[0]).map(|x| x.0.map(|t| state_json(&t).to_string()));
+        if a != b {
+            ev::machinery("C25: the same operation gives different results when run twice");
+        }
+    }
+
+    let all: Vec<usize> = (0..ops.len()).collect();
+    let core: Vec<usize> = (0..ops.len()).filter(|i| ops[*i].core).collect();
+    let alpha: Vec<Vec<usize>> = if run.tier.is_thorough() { vec![all.clone(), all.clone(), core.clone()] } else { vec![all.clone(), all.clone()] };
+
+    // ---- BFS ----------------------------------------------------------------------------------------------
+    let mut seen: HashMap<String, ()> = HashMap::new();
+    seen.insert(dj.to_string(), ());
+    let mut frontier: Vec<(Settings, Value, Vec<String>)> = vec![(default.clone(), dj.clone(), vec![])];
+    let transitions = AtomicU64::new(0);
+    let execs = AtomicU64::new(0);
+    let nontrivial = AtomicU64::new(0);
+    let outcome: Mutex<BTreeMap<&'static str, u64>> = Mutex::new(BTreeMap::new());
+    let mut states_per_depth = vec![1u64];
+    for (depth, a) in alpha.iter().enumerate() {
+        let pairs: Vec<(usize, usize)> = (0..frontier.len()).flat_map(|s| a.iter().map(move |o| (s, *o))).collect();
+        run.space(&format!("depth {}: {} states x {} logical ops (each in all its variants)", depth + 1, frontier.len(), a.len()), pairs.len() as u64, true);
+        let found: Mutex<HashMap<String, (Settings, Vec<String>)>> = Mutex::new(HashMap::new());
+        par::for_each(&pairs, |(si, oi)| {
+            let (s, sj, trace) = &frontier[*si];
+            let op = &ops[*oi];
+            let j = judge(run, trace, s, sj, op, false);
+            execs.fetch_add(j.execs, Ordering::Relaxed);
+            transitions.fetch_add(1, Ordering::Relaxed);
+            {
+                let mut g = outcome.lock().unwrap();
+                let cls = if j.outcomes.iter().all(|o| *o == "success") {
+                    "all variants succeed"
+                } else if j.outcomes.iter().all(|o| *o == "failure") {
+                    "all variants fail (state unchanged)"
+                } else {
+                    "variants split between success and failure"
+                };
+                *g.entry(cls).or_insert(0) += 1;
+            }
+            let pre = sj.to_string();
+            let mut changed = false;
+            for (k, t) in j.next {
+                if k != pre {
+                    changed = true;
+                    let mut g = found.lock().unwrap();
+                    g.entry(k).or_insert_with(|| {
+                        let mut tr = trace.clone();
+                        tr.push(format!("{} :: {}", op.variants()[0].name(), op.id));
+                        (t, tr)
+                    });
+                }
+            }
+            if changed {
+                nontrivial.fetch_add(1, Ordering::Relaxed);
+            }
+        });
+        let mut next_frontier = vec![];
+        let mut found: Vec<(String, (Settings, Vec<String>))> = found.into_inner().unwrap().into_iter().collect();
+        found.sort_by(|a, b| a.0.cmp(&b.0));
+        for (k, (t, tr)) in found {
+            if seen.insert(k.clone(), ()).is_none() {
+                let tj: Value = serde_json::from_str(&k).unwrap();
+                next_frontier.push((t, tj, tr));
+            }
+        }
+        states_per_depth.push(next_frontier.len() as u64);
+        frontier = next_frontier;
+    }
+    run.states(seen.len() as u64);
+    run.transitions(transitions.load(Ordering::Relaxed));
+    run.traces(execs.load(Ordering::Relaxed));
+    run.evals(execs.load(Ordering::Relaxed));
+    run.nontrivial_n(nontrivial.load(Ordering::Relaxed));
+    for (k, v) in outcome.lock().unwrap().iter() {
+        run.outcome_n(*k, *v);
+    }
+    run.extra("new_states_per_depth", json!(states_per_depth));
+
+    // ---- stateright cross-check -----------------------------------------------------------------------------
+    {
+        // the (depth, json) state space; compared on distinct JSON per depth with the engine's BFS would need first-visit depths,
+        // so compare what is invariant: the set of settings states reachable within the bound.
+        let sr_alpha: Vec<Vec<usize>> = if run.tier.is_thorough() { vec![all.clone(), core.clone()] } else { vec![all.clone(), core.clone()] };
+        let model = SrModel { ops: Arc::new(ops.clone()), alpha: Arc::new(sr_alpha.clone()), init: dj.to_string(), execs: Arc::new(AtomicU64::new(0)) };
+        let ex = model.execs.clone();
+        let t0 = std::time::Instant::now();
+        let checker = model.checker().threads(par::workers()).spawn_bfs().join();
+        let sr_unique = checker.unique_state_count() as u64;
+        // the engine on the same parameters: (depth, state) pairs
+        let mut own: std::collections::HashSet<(u8, String)> = std::collections::HashSet::new();
+        own.insert((0, dj.to_string()));
+        let mut level: Vec<(Settings, String)> = vec![(default.clone(), dj.to_string())];
+        for (d, a) in sr_alpha.iter().enumerate() {
+            let pairs: Vec<(usize, usize)> = (0..level.len()).flat_map(|s| a.iter().map(move |o| (s, *o))).collect();
+            let found: Mutex<HashMap<String, Settings>> = Mutex::new(HashMap::new());
+            par::for_each(&pairs, |(si, oi)| {
+                let op = &ops[*oi];
+                if let Ok((Ok(t), _)) = exec(&level[*si].0, op, op.variants()[0]) {
+                    let k = state_json(&t).to_string();
+                    found.lock().unwrap().entry(k).or_insert(t);
+                }
+            });
+            level = found.into_inner().unwrap().into_iter().map(|(k, t)| (t, k)).collect();
+            for (_, k) in &level {
+                own.insert((d as u8 + 1, k.clone()));
+            }
+        }
+        run.extra(
+            "stateright",
+            json!({"alphabet_per_depth": sr_alpha.iter().map(|a| a.len()).collect::<Vec<_>>(), "unique_states(depth,json)": sr_unique, "engine_states(depth,json)": own.len(),
+                   "generated": checker.state_count(), "max_depth": checker.max_depth(), "op_executions": ex.load(Ordering::Relaxed), "wall_s": t0.elapsed().as_secs_f64()}),
+        );
+        run.evals(ex.load(Ordering::Relaxed));
+        if sr_unique != own.len() as u64 {
+            ev::machinery(format!("C25: stateright finds {sr_unique} (depth,state) pairs, the engine {}", own.len()));
+        }
+    }
 }
